@@ -322,6 +322,8 @@ def _tensor_sig(m, ti):
         return ("absent",)
     t = m.tensors[ti]
     q = (tuple(t.scale), tuple(t.zp), t.qdim) if t.scale else None
+    if q is not None and (getattr(t, "qmin", None) or getattr(t, "qmax", None)):
+        q = q + (tuple(t.qmin or ()), tuple(t.qmax or ()))  # the optional real-valued range is part of the quantisation parameters
     if t.data is not None:
         import hashlib
 
